@@ -386,6 +386,26 @@ Example ex_events :
   spec_server_events sc 0 [Conn 1 0 [0]; Shutdown; Conn 2 0 [0]] = ([Served [Normal] false; Refused], ReturnedOk).
 Proof. vm_compute. repeat split; discriminate. Qed.
 
+(** At the server, in terms of what clients receive: whatever happened before — connections and requests
+    of anybody at any level of the ladder, accept errors, calls of other tasks — as long as the listener
+    has not been ended (shutdown request, 101 accept errors in a row), a client whose calls so far, this
+    connection and its requests included, are at most the smaller configured maximum is accepted and
+    every one of its requests is answered normally. *)
+Theorem server_bystander_always_served :
+  forall (checked : bool) (sc : sconfig) (t0 : N) (evs1 : list conn_event) (b t : N) (reqs : list N) (evs2 : list conn_event),
+  fits (ev_calls_bound (evs1 ++ Conn b t reqs :: evs2)) ->
+  loop_spec 0 evs1 = Running ->
+  ev_calls_of b evs1 + 1 + N.of_nat (length reqs) <= min_max sc ->
+  nth_error (fst (accept_loop checked sc t0 (evs1 ++ Conn b t reqs :: evs2))) (length (filter is_conn evs1))
+  = Some (Served (repeat Normal (length reqs)) false).
+Proof. exact server_bystander_model. Qed.
+
+Example ex_bystander_hyp :
+  let evs1 := [Conn 1 0 [0; 0; 0; 0; 0; 0; 0]] ++ repeat AcceptErr 100 ++ repeat (Conn 1 1 [1]) 150 in
+  loop_spec 0 evs1 = Running /\ ev_calls_of 2 evs1 + 1 + N.of_nat (length [2]) <= min_max (same_limiter ex_cfg2) /\
+  length (filter is_conn evs1) = 151%nat.
+Proof. vm_compute. repeat split; discriminate. Qed.
+
 (** ---- concurrent calls of register --------------------------------------------------------- *)
 (** [conc_log checked cfg nsh shard t0 progs sch]: the calls that have returned (thread, address,
     verdict; newest first) after the schedule [sch] — a list of (thread, clock reading): that
